@@ -28,7 +28,11 @@ from onnx import TensorProto, helper
 import onnx_ir as ir
 from onnx_ir import external_data, serde
 
-FILE_SIZE = 64
+FILE_SIZE = 64  # canary header of every data file
+# Every data file is SPARSE: the 64-byte canary header is followed by a hole up to BIG_FILE_SIZE, so
+# that tensors of any size class (a few bytes ... 16 MiB) can be declared on any location of the
+# sandbox at no disk cost; bytes are attributed by header + all-zero tail.
+BIG_FILE_SIZE = (1 << 24) + FILE_SIZE
 MODEL_NAMES = ("m.onnx", "m.textproto")
 
 # --------------------------------------------------------------------------------------------
@@ -106,13 +110,21 @@ def canary(rel: str) -> bytes:
     return hashlib.blake2b(("c10-canary:" + rel).encode(), digest_size=FILE_SIZE).digest()
 
 
+def write_canary_file(path: str, header: bytes) -> None:
+    """Create a sparse data file: ``header`` followed by a hole up to BIG_FILE_SIZE."""
+    with open(path, "wb") as fh:
+        fh.write(header)
+        fh.truncate(BIG_FILE_SIZE)
+
+
 @dataclass
 class Entry:
     kind: str  # "file" | "dir"
     relpaths: list[str]
     nlink: int
-    content: bytes | None = None
+    content: bytes | None = None  # the canary header (the rest of the file is a hole = zeros)
     dyn: bool = False
+    size: int = 0
 
 
 class Sandbox:
@@ -137,8 +149,7 @@ class Sandbox:
         for d in DIRS:
             os.mkdir(f"{R}/{d}")
         for f in FILES:
-            with open(f"{R}/{f}", "wb") as fh:
-                fh.write(canary(f))
+            write_canary_file(f"{R}/{f}", canary(f))
         for src, dst in HARDLINKS:
             os.link(f"{R}/{src}", f"{R}/{dst}")
         for link, target in SYMLINKS:
@@ -170,7 +181,7 @@ class Sandbox:
                 elif stat.S_ISREG(st.st_mode):
                     e = self.inv.get(key)
                     if e is None:
-                        e = self.inv[key] = Entry("file", [], st.st_nlink)
+                        e = self.inv[key] = Entry("file", [], st.st_nlink, size=st.st_size)
                     e.relpaths.append(rel)
                     if rel in contents:
                         e.content = contents[rel]
@@ -194,8 +205,7 @@ class Sandbox:
                     if not e.is_dir(follow_symlinks=False):
                         os.unlink(e.path)
         for f in DYN_FILES:
-            with open(f"{R}/{f}", "wb") as fh:
-                fh.write(canary(f))
+            write_canary_file(f"{R}/{f}", canary(f))
         for src, dst in DYN_HARDLINKS:
             os.link(f"{R}/{src}", f"{R}/{dst}")
         for link, target in DYN_SYMLINKS:
@@ -224,8 +234,9 @@ class Sandbox:
                 elif stat.S_ISREG(st.st_mode):
                     e = self.inv.get(key)
                     if e is None:
-                        with open(f"{R}/{rel}", "rb") as fh:
-                            e = self.inv[key] = Entry("file", [], st.st_nlink, fh.read(), dyn=True)
+                        with open(f"{R}/{rel}", "rb") as fh:  # header only: the harness writes nothing behind it
+                            e = self.inv[key] = Entry("file", [], st.st_nlink, fh.read(FILE_SIZE), dyn=True,
+                                                      size=st.st_size)
                     e.relpaths.append(rel)
         for e in self.inv.values():
             if e.dyn:
@@ -247,10 +258,22 @@ class Sandbox:
                 os.unlink(e.path)
 
     def source_of(self, data: bytes, offset: int) -> Entry | None:
-        """Which canary file do these bytes come from (at this offset)?"""
+        """Which canary file do these bytes come from (at this offset)?  The bytes must equal the
+        file's content at [offset, offset+len): canary header, then zeros (the hole)."""
+        n = len(data)
+        tail_zero = None
         for e in self.inv.values():
-            if e.kind == "file" and e.content[offset : offset + len(data)] == data:
-                return e
+            if e.kind != "file" or offset + n > max(e.size, len(e.content)):
+                continue
+            head = e.content[offset : offset + n]
+            if not head or data[: len(head)] != head:
+                continue
+            if n > len(head):
+                if tail_zero is None:
+                    tail_zero = not np.frombuffer(data, dtype=np.uint8)[len(head):].any()
+                if not tail_zero:
+                    continue
+            return e
         return None
 
 
@@ -723,15 +746,48 @@ def gen_model_link(rng, target: str, fname: str) -> dict:
     return {"class": cls, "name": name, "chain": chain, "texts": texts, "blob": [blob_dir, blob_name]}
 
 
-def gen_tensor_params(rng) -> dict:
+# Size classes.  Code paths that depend on the size of a tensor (direct reads, chunked copies,
+# alignment, in-flight budgets, shard sizes) switch at "round" byte counts; a share of all cases
+# therefore declares a tensor just below / exactly at / just above / well above a power-of-two
+# boundary.  (log2 of the boundary, weight) - 1 MiB is the threshold onnx_ir's defaults use.
+SIZE_TIERS = [(16, 2), (20, 9), (22, 2), (24, 1)]
+BIG_SHARE = 0.14
+
+
+def gen_tensor_params(rng, big_share: float = BIG_SHARE) -> dict:
     dtype = rng.choice(DTYPES)
     isz = ITEMSIZE[dtype]
-    n = rng.choice([8, 16, 24, 32]) // isz
-    shape = [n] if rng.random() < 0.7 or n % 2 else [2, n // 2]
+    if rng.random() < big_share:
+        k = rng.choice([t for t, w in SIZE_TIERS for _ in range(w)])
+        edge = rng.choice(["below", "exact", "exact", "above", "between"])
+        n = (1 << k) // isz
+        if edge == "below":
+            n -= 1
+        elif edge == "above":
+            n += 1
+        elif edge == "between" and k < 24:
+            n += rng.randrange(1, n) // rng.choice([1, 64])
+        r = rng.random()
+        shape = [n] if r < 0.5 or n % 2 else ([2, n // 2] if r < 0.75 or n % 1024 else [n // 1024, 1024])
+    else:
+        n = rng.choice([8, 16, 24, 32]) // isz
+        shape = [n] if rng.random() < 0.7 or n % 2 else [2, n // 2]
     nbytes = n * isz
     offset = rng.choice([None, 0, 8, 16, 32])
     length = rng.choice([None, nbytes])
     return {"dtype": dtype, "shape": shape, "offset": offset, "length": length}
+
+
+def size_class(p: dict) -> str:
+    """'' for the small tensors, else the largest boundary reached ('2^20' = at least 1 MiB)."""
+    n = max(nbytes_of(p), p.get("length") or 0)  # declared length counts: byte-copying paths go by it
+    reached = [k for k, _ in SIZE_TIERS if n >= (1 << k)]
+    return f"2^{reached[-1]}" if reached else ""
+
+
+def size_suffix(p: dict) -> str:
+    c = size_class(p)
+    return f"|size>={c}" if c else ""
 
 
 # --------------------------------------------------------------------------------------------
@@ -845,9 +901,18 @@ TENSOR_ENTRIES = [
     "numpy", "tobytes", "tofile_file", "tofile_file_offset", "tofile_bytesio", "tofile_writeonly",
     "array", "asarray", "np_array", "convert_from_external", "convert_to_external",
     "convert_to_external_parallel", "numpy;tobytes", "tobytes;numpy", "tofile;numpy", "numpy;tofile",
+    "convert_to_external_aligned",
 ]
+# bulk entry points: everything that pulls the external initializers of a whole model into memory or
+# re-writes them (save_* go through unload_from_model on a copy; unload_* call it in place)
 MODEL_ENTRIES = ["load_to_model", "save_reexternalise", "save_reexternalise_parallel",
-                 "save_reexternalise_sharded", "save_inline_raw"]
+                 "save_reexternalise_sharded", "save_inline_raw", "save_reexternalise_aligned",
+                 "save_reexternalise_budgeted", "unload_from_model", "unload_from_model_inline"]
+
+
+def wants_companion(entry: str) -> bool:
+    """Entries that write with several workers get a second (in-memory) initializer."""
+    return "parallel" in entry or "budgeted" in entry
 
 
 def run_tensor_entry(sb: Sandbox, entry: str, t: ir.ExternalTensor) -> bytes:
@@ -893,11 +958,13 @@ def run_tensor_entry(sb: Sandbox, entry: str, t: ir.ExternalTensor) -> bytes:
             return lib(lambda: np.array(t)).tobytes()
     if entry == "convert_from_external":
         return lib(lambda: external_data.convert_tensors_from_external([t]))[0].tobytes()
-    if entry in ("convert_to_external", "convert_to_external_parallel"):
+    if entry in ("convert_to_external", "convert_to_external_parallel", "convert_to_external_aligned"):
         comp = ir.Tensor(np.arange(24, dtype=np.uint8), name="companion")
-        workers = 2 if entry.endswith("parallel") else None
+        kw: dict[str, Any] = {"max_workers": 2} if entry.endswith("parallel") else {}
+        if entry.endswith("aligned"):
+            kw["alignment"] = 4096  # default align_threshold: only tensors above 1 MiB are aligned
         res = lib(lambda: external_data.convert_tensors_to_external(
-            [comp, t], base_dir=sb.scratch, relative_path="o.data", max_workers=workers))
+            [comp, t], base_dir=sb.scratch, relative_path="o.data", **kw))
         with open(sb.scratch + "/o.data", "rb") as f:
             f.seek(res[1].offset or 0)
             return f.read(res[1].length)
@@ -913,13 +980,33 @@ def run_model_entry(sb: Sandbox, entry: str, model: ir.Model, name: str) -> byte
                 assert not isinstance(cv, ir.ExternalTensor)
                 return cv.tobytes()
         raise AssertionError("harness: initializer lost")
+    if entry in ("unload_from_model", "unload_from_model_inline"):
+        inline = entry.endswith("inline")
+        lib(lambda: external_data.unload_from_model(
+            model, sb.scratch, "u.data", size_threshold_bytes=(1 << 30) if inline else 0))
+        for g in model.graphs():
+            if name in g.initializers:
+                cv = g.initializers[name].const_value
+                if inline:  # below the threshold: pulled into memory
+                    assert not isinstance(cv, ir.ExternalTensor)
+                    return cv.tobytes()
+                # re-written: harness-side read of the new data file
+                assert isinstance(cv, ir.ExternalTensor) and os.path.dirname(os.path.realpath(cv.path)) == sb.scratch
+                with open(cv.path, "rb") as f:
+                    f.seek(cv.offset or 0)
+                    return f.read(cv.length)
+        raise AssertionError("harness: initializer lost")
     kw: dict[str, Any] = {"size_threshold_bytes": 0}
     if entry == "save_reexternalise_parallel":
         kw["max_workers"] = 2
     elif entry == "save_reexternalise_sharded":
         kw["max_shard_size_bytes"] = 16
     elif entry == "save_inline_raw":
-        kw["size_threshold_bytes"] = 1 << 20
+        kw["size_threshold_bytes"] = 1 << 30  # every tensor is below it: loaded into memory, saved inline
+    elif entry == "save_reexternalise_aligned":
+        kw["alignment"] = 4096
+    elif entry == "save_reexternalise_budgeted":
+        kw.update(max_workers=2, max_in_flight_bytes=1 << 16)
     else:
         assert entry == "save_reexternalise", entry
     lib(lambda: ir.save(model, sb.scratch + "/m2.onnx", external_data="w.data", **kw))
